@@ -16,7 +16,9 @@ def run(ctx):
     quick = ctx.tier == "quick"
     r = ctx.tlc_ok("ServerConn", "ServerConn_mc.cfg", timeout=600)
     binp = ctx.build("serverconn")
-    g1, s1 = vlib.gen_and_replay(ctx, "ServerConnGen", "ServerConnGen_trans.cfg", binp)
+    # quick: the 32 configurations in which the optional interfaces (MOVE, NAMESPACE, UNAUTHENTICATE, own SASL mechanisms) are
+    # all present or all absent; thorough: all 192
+    g1, s1 = vlib.gen_and_replay(ctx, "ServerConnGen", "ServerConnGen_trans_quick.cfg" if quick else "ServerConnGen_trans.cfg", binp)
     g2, s2 = vlib.gen_and_replay(ctx, "ServerConnGen", "ServerConnGen_depth2.cfg" if quick else "ServerConnGen_depth.cfg",
                                  binp, timeout=2400, harness_timeout=2400)
     ntr, steps = (300, 60) if quick else (3000, 120)
